@@ -44,6 +44,19 @@ esac
 LIMIT=3600
 [ "$TIER" = thorough ] && LIMIT=14400
 rc=0
+
+# --- replay tier: committed regression cases of this property (seconds) --------------------------------
+for f in "$HERE"/regressions/"$ID"-*.json; do
+  [ -e "$f" ] || continue
+  timeout 120 "$FAST" replay "$f"
+  r=$?
+  if [ "$r" = 1 ]; then rc=1
+  elif [ "$r" = 124 ]; then
+    if [ "$ID" = C05 ]; then echo "VIOLATION property=C05 replay=$f"; echo "  detail: replayed call did not return within 120 s (hang)"; rc=1
+    else echo "INFRA: replay of $f timed out"; [ "$rc" = 0 ] && rc=2; fi
+  elif [ "$r" != 0 ]; then echo "INFRA: replay of $f exited with $r"; [ "$rc" = 0 ] && rc=2; fi
+done
+
 rm -f "$HERE/evidence/.$ID.checked.json"
 if [ "$NEED_CHECKED" = 1 ]; then
   VERIF_PROFILE=checked timeout "$LIMIT" "$CHECKED" check "$ID" --tier "$TIER" --seed "$SEED"
@@ -56,6 +69,38 @@ VERIF_PROFILE=fast timeout "$LIMIT" "$FAST" check "$ID" --tier "$TIER" --seed "$
 r=$?
 [ "$r" = 124 ] && { echo "INFRA: check timed out (inconclusive)"; r=2; }
 if [ "$r" -gt 2 ]; then echo "INFRA: check died with status $r"; r=2; fi
+# --- thorough tier: coverage-guided campaign with the same decoders and oracle (libFuzzer) --------------------
+FT=""
+case "$ID" in C03|C05) FT=stream_case;; C04) FT=ctor_case;; C09) FT=tree_history;; C14) FT=schedule;; esac
+if [ "$TIER" = thorough ] && [ -n "$FT" ]; then
+  export RUSTFLAGS="--cfg rand_distr_verif"
+  cp /repo/Cargo.lock "$HERE/harness/fuzz/Cargo.lock" 2>/dev/null
+  if ! cargo +nightly fuzz build --sanitizer none "$FT" >"$LOG.fuzz" 2>&1; then
+    echo "INFRA: fuzz target build failed; see $LOG.fuzz"; [ "$r" = 0 ] && r=2
+  else
+    WORK="$HERE/harness/target/fuzzwork-$ID"; rm -rf "$WORK"; mkdir -p "$WORK/corpus" "$WORK/art"
+    : > "$WORK/corpus/empty"
+    python3 -c "
+import random,sys
+random.seed(int('$SEED'))
+for i in range(64):
+    open('$WORK/corpus/r%d'%i,'wb').write(bytes(random.getrandbits(8) for _ in range(random.choice([8,16,32,64,128,256]))))"
+    case "$FT" in stream_case) RUNS=30000000; ML=64;; ctor_case) RUNS=30000000; ML=96;; tree_history) RUNS=6000000; ML=1024;; schedule) RUNS=1500000; ML=1024;; esac
+    cargo +nightly fuzz run --sanitizer none "$FT" "$WORK/corpus" -- -runs=$RUNS -seed=$((SEED+1)) -max_len=$ML -len_control=0 -artifact_prefix="$WORK/art/" -print_final_stats=1 >"$WORK/fuzz.log" 2>&1
+    fr=$?
+    grep -E "stat::number_of_executed_units|stat::new_units_added" "$WORK/fuzz.log" | sed "s/^/fuzz $FT: /"
+    if [ "$fr" != 0 ]; then
+      found=0
+      for a in "$WORK"/art/*; do
+        [ -e "$a" ] || continue
+        "$FAST" fuzz-replay "$FT" "$a" "$ID"; ar=$?
+        [ "$ar" = 1 ] && { found=1; r=1; }
+      done
+      [ "$found" = 0 ] && { echo "INFRA: fuzz campaign ended with status $fr without a reproducible artifact"; tail -n 5 "$WORK/fuzz.log"; [ "$r" = 0 ] && r=2; }
+    fi
+  fi
+  unset RUSTFLAGS
+fi
 # a violation (1) outranks an infrastructure problem (2) only if a VIOLATION line was printed, which exit 1 guarantees
 if [ "$rc" = 1 ] || [ "$r" = 1 ]; then exit 1; fi
 [ "$r" -gt "$rc" ] && rc=$r
